@@ -380,12 +380,7 @@ static void audit_tree(int t, unsigned props01)
 static void w_audit(void)
 {
     int k;
-    audit_tree(0, PC01);
-    if (mc_branch_dead) return;
-    MC_CHECK(PC01, t_size(1) == 0 && t_bt(1)->root == NULL, "the second (empty) tree object was disturbed");
-    MC_CHECK(PC01 | PC15, vbad == 0, "a visit or clear callback received a private pointer other than the one the caller passed (%d calls)", vbad);
-    MC_CHECK(PC01 | PC02, wrong_cmp == 0, "the comparison function of the OTHER (empty) tree object was called %d times: swap did not move the comparator with the content", wrong_cmp);
-    MC_CHECK(PC01 | PC02, wrong_priv == 0, "the comparison function received a private pointer other than the one its tree was initialised with (%d calls)", wrong_priv);
+    /* the red-black rules are judged first and from the raw structure alone, so that a change which ALSO loses elements (a C01 matter) is still seen as the C02 violation it is */
     if (RB) {
         const struct cstl_bintree *bt = t_bt(0);
         size_t hmin = 0, hmax = 0; int ab;
@@ -409,6 +404,12 @@ static void w_audit(void)
             MC_CHECK(PC02, (m_count == 0) == (hmax == 0) && hmin <= hmax, "cstl_rbtree_height reports min %zu max %zu for %d elements", hmin, hmax, m_count);
         }
     }
+    audit_tree(0, PC01);
+    if (mc_branch_dead) return;
+    MC_CHECK(PC01, t_size(1) == 0 && t_bt(1)->root == NULL, "the second (empty) tree object was disturbed");
+    MC_CHECK(PC01 | PC15, vbad == 0, "a visit or clear callback received a private pointer other than the one the caller passed (%d calls)", vbad);
+    MC_CHECK(PC01 | PC02, wrong_cmp == 0, "the comparison function of the OTHER (empty) tree object was called %d times: swap did not move the comparator with the content", wrong_cmp);
+    MC_CHECK(PC01 | PC02, wrong_priv == 0, "the comparison function received a private pointer other than the one its tree was initialised with (%d calls)", wrong_priv);
     for (k = 0; k < N; k++) MC_CHECK(PC01 | PC02, pool[k].pad == 0x1111 && pool[k].tail == 0x2222 && pool[k].key == keys[k] && pool[k].idx == k && untouched(&pool[k].rn2, sizeof pool[k].rn2), "element %d: bytes outside its tree node were modified", k);
 }
 
